@@ -17,8 +17,8 @@ def _mods(*pats):
     return lambda rule, construct: bool(rx.search(construct))
 
 
-BOOST = _mods(r"lorentz\.boost", r"\bboost", r"Lorentz\.boost")
-ROT = _mods(r"rotate", r"\.rotate")
+BOOST = _mods(r"boost")
+ROT = _mods(r"rotate")
 CMP = _mods(r"\.(equal|not_equal|isclose)\b", r"\.(equal|not_equal|isclose)\[")
 PRED = _mods(r"\.is_(parallel|antiparallel|perpendicular|timelike|lightlike|spacelike)")
 ARITH = _mods(r"\.(add|subtract|scale)\b", r"\.(add|subtract|scale)\[")
@@ -51,6 +51,7 @@ SHARED = {
         ("c18", {"C18.behavior-classes": "C06.behavior-classes"}, "vector.zip / vector.Array results get their class (flavor) from the behavior table", None),
     ],
     "C07": [
+        ("c06", {"C06.obj": "C07.obj-interpreter"}, "vector.obj inside numba.njit is typed by its own overload; the interpreter's vector.obj must build the documented vector for the two to agree", None),
         ("c01", {"C01.dispatch-args": "C07.interpreter-dispatch-arguments"}, "the Numba lowering has its own argument lists; the interpreter's dispatch() must feed the same kernel arguments", None),
     ],
     "C08": [
